@@ -556,7 +556,9 @@ func ExtendVoucher[T protocol.PublicKeyOrChain](v *Voucher, owner crypto.Signer,
 	if err != nil {
 		return nil, err
 	}
-	xv.Entries = append(xv.Entries, *entry)
+	// The clone shares the entry slice of v: cut off its spare capacity so that
+	// extending v a second time cannot overwrite the entry appended here
+	xv.Entries = append(xv.Entries[:len(xv.Entries):len(xv.Entries)], *entry)
 	return xv, nil
 }
 
